@@ -698,9 +698,23 @@ package p9p
 //@ ensures ok: err == nil ==> typeis(result0, cEnt) && result0.(cEnt).fid == ent.fid && typeis(result1, fileRef) && result1.(fileRef).cEnt.fid == ent.fid && CALLED(ent.fid)
 
 //@ func (fileRef).Read
-//@ property C20
+//@ property C20 C17
 //@ requires f.cEnt.fs != nil && f.cEnt.fs.session != nil
 //@ ensures CALLED(f.cEnt.fid) && SB_SAME
+//@ ensures well_behaved: 0 <= result0 && result0 <= len(p)
+
+// The client's directory iterator: bookkeeping only (what the decoded entries are is DecodeDir#rt; the loop as a whole is
+// not under contract). Once done it stays done without another request; it declares the listing finished only after a
+// read that delivered no entry (a short but non-empty reply is not the end); the offset never moves backwards; no panic
+// for any reply the session returns.
+//@ func (*openDir).Next
+//@ property C17
+//@ requires dir != nil && dir.fileRef.cEnt.fs != nil && dir.fileRef.cEnt.fs.session != nil && dir.nread >= 0 && dir.nread < 4611686018427387904 && len(dir.buf) < 4611686018427387904
+//@ ensures stays_done: old(dir.done) ==> err == nil && len(result0) == 0 && dir.done && dir.nread == old(dir.nread) && NOCALL
+//@ ensures done_only_after_empty: dir.done && !old(dir.done) ==> len(result0) == 0
+//@ ensures offset_monotone: dir.nread >= old(dir.nread) && dir.nread <= old(dir.nread) + len(dir.buf)
+//@ ensures one_request: !old(dir.done) ==> CALLED(dir.fileRef.cEnt.fid)
+//@ loop 1 invariant len(ret) >= 0 && dir != nil
 //@ func (fileRef).Write
 //@ property C20
 //@ requires f.cEnt.fs != nil && f.cEnt.fs.session != nil
